@@ -27,6 +27,7 @@ SPECIAL_INTS = [0, 1, -1, 2, 5, 10, -10, 100, 2**31 - 1, 2**31, -(2**31), 2**32,
 
 KW_COLS = ["increment", "start", "cache", "minvalue", "maxvalue", "no", "order", "noorder", "Increment", "START"]
 TABLE_BEFORE = "CREATE TABLE t_before (a int, b varchar(10) NOT NULL);\n"
+SET_BEFORE = "SET search_path = sales;\n"
 TABLE_AFTER = "CREATE TABLE t_after (%s);\n" % ", ".join("%s int" % c for c in KW_COLS[:8])
 
 
@@ -114,7 +115,8 @@ def sequence(draw):
 @st.composite
 def case_strategy(draw):
     seqs = draw(st.lists(sequence(), min_size=1, max_size=3))
-    return {"seqs": seqs, "context": draw(st.integers(0, 3)), "layout": draw(gen.layout())}
+    # context bits: 1 table before, 2 table after, 4 a one-line SET statement directly in front of the first sequence
+    return {"seqs": seqs, "context": draw(st.integers(0, 7)), "layout": draw(gen.layout())}
 
 
 class C17(Prop):
@@ -162,6 +164,8 @@ class C17(Prop):
         stmts = []
         if case["context"] & 1:
             stmts.append(TABLE_BEFORE)
+        if case["context"] & 4:
+            stmts.append(SET_BEFORE)
         for s in case["seqs"]:
             stmts.append(seq_tokens(s))
         if case["context"] & 2:
@@ -189,7 +193,10 @@ class C17(Prop):
             return out
         res = r[1]
         with compare(out, "result"):
-            n_before = 1 if case["context"] & 1 else 0
+            n_before = (1 if case["context"] & 1 else 0) + (1 if case["context"] & 4 else 0)
+            if case["context"] & 4 and (len(res) < n_before or res[n_before - 1] != {"name": "search_path", "value": "sales"}):
+                out.fail("neighbour-set", "SET statement in front of the sequence reported as %r; %r" % (res[:n_before], ddl))
+                return out
             n_after = 1 if case["context"] & 2 else 0
             if len(res) != len(exp) + n_before + n_after:
                 out.fail("entity-count", "expected %d entities, got %d: %r" % (len(exp) + n_before + n_after, len(res), ddl))
@@ -202,7 +209,7 @@ class C17(Prop):
                     for k in e:
                         if type(e[k]) is not type(got[k]):
                             out.fail("sequence-value-type", "expected %r got %r" % (e[k], got[k]))
-            if n_before:
+            if case["context"] & 1:
                 ref = self.reference(TABLE_BEFORE)
                 if res[0] != ref[0]:
                     out.fail("neighbour-before", "table before the sequence changed: %r" % (res[0],))
